@@ -95,9 +95,28 @@ def _unescape(s: str) -> str:
     return "".join(out)
 
 
-def spec_hash(cfg: str, extra: str = "") -> str:
+def module_closure(module: str) -> list[Path]:
+    """The module file and every module of spec/ it (transitively) EXTENDS / INSTANCEs."""
+    seen: dict[str, Path] = {}
+    todo = [module[:-4] if module.endswith(".tla") else module]
+    while todo:
+        name = todo.pop()
+        path = SPEC / f"{name}.tla"
+        if name in seen or not path.exists():
+            continue
+        seen[name] = path
+        text = path.read_text()
+        for m in re.finditer(r"^\s*EXTENDS\s+(.+)$", text, re.M):
+            todo.extend(x.strip() for x in m.group(1).split(","))
+        for m in re.finditer(r"INSTANCE\s+(\w+)", text):
+            todo.append(m.group(1))
+    return [seen[k] for k in sorted(seen)]
+
+
+def spec_hash(cfg: str, extra: str = "", module: str | None = None) -> str:
     h = hashlib.sha256()
-    for p in sorted(SPEC.glob("*.tla")):
+    files = module_closure(module) if module else sorted(SPEC.glob("*.tla"))
+    for p in files:
         h.update(p.name.encode())
         h.update(p.read_bytes())
     h.update((SPEC / cfg).read_bytes())
@@ -135,7 +154,7 @@ def run_tlc(
     keep_output: Path | None = None,
 ) -> TlcResult:
     """Run TLC; return parsed result.  Emitted states land in a gz dump."""
-    key = spec_hash(cfg, extra=f"{module}|{simulate}|{seed if simulate else ''}|{sorted((env or {}).items())}")
+    key = spec_hash(cfg, module=module, extra=f"{module}|{simulate}|{seed if simulate else ''}|{sorted((env or {}).items())}")
     CACHE.mkdir(exist_ok=True)
     meta_path = CACHE / f"{key}.json"
     dump_path = CACHE / f"{key}.ndjson.gz"
